@@ -68,6 +68,11 @@ fn roundtrip(idx: u64, rng: &mut Rng, mon: &mut Mon) {
             let j = rng.usize(6);
             p.offsets[j] = rng.sign() * rng.logu(1e-6, 2e-3);
         }
+        // (a blocked sixth joint - sign correction 0 - can be declared with either dof value)
+        if p.dof == 6 && rng.bool(0.1) {
+            p.signs[5] = 0;
+            mon.count("roundtrip.dof6_with_blocked_j6_sign");
+        }
         p.a1 = integralize(rng, p.a1);
         p.a2 = integralize(rng, p.a2);
         p.b = integralize(rng, p.b);
@@ -358,7 +363,9 @@ fn mutants(idx: u64, rng: &mut Rng, mon: &mut Mon) {
                 let body: String = (0..(1 + rng.usize(9))).map(|_| *rng.pick(&alphabet)).collect();
                 match rng.usize(3) { 0 => format!("\"{}\"", body), 1 => format!("deg({})", body), _ => body }
             };
-            let fixed = *rng.pick(&["abc", "[1, 2]", "{x: 1}", "~", "true", "'0.5'", "1e400", "-", ".nan", "deg(", "deg(x)", "deg()", "-90°", "90°", "abc€de", "\"π/2 \"", "deg(90°)", "DEG(90)", "1,5", "½"]);
+            let fixed = *rng.pick(&["abc", "[1, 2]", "{x: 1}", "~", "true", "'0.5'", "1e400", "-", ".nan", "deg(", "deg(x)", "deg()", "-90°", "90°", "abc€de", "\"π/2 \"", "deg(90°)", "DEG(90)", "1,5", "½",
+                // integers around every machine width (an entry such as dof is narrowed on the way in)
+                "127", "128", "130", "134", "-125", "-128", "-129", "255", "256", "384", "32768", "65536", "2147483648", "4294967296", "9223372036854775680", "9223372036854775807", "-9223372036854775808", "18446744073709551616"]);
             let repl: &str = if rng.bool(0.4) { mon.count("mutants.multibyte_scalars"); &unicode } else { fixed };
             let mut lines: Vec<String> = base.lines().map(|s| s.to_string()).collect();
             let cand: Vec<usize> = lines.iter().enumerate().filter(|(_, l)| l.contains(": ")).map(|(i, _)| i).collect();
